@@ -8,6 +8,21 @@ NA_ALL = {
  'C15': 'Circuit shape / pinned Groth16 keys: needs Groth16 proving and pairing evaluation on concrete keys (whole-program runs through ark-groth16, no symbolic content) and a dataflow statement about arkworks\' synthesiser; no solver verdict over the real code is within reach (DESIGN §4).',
 }
 CHECKS = {
+ 'C01': dict(level='proof', technique='derived: union of the C02 / C03 / C09 obligations (MIR symbolic execution, z3 identities and certificates) plus coordinate-level negate check; native round-trip replay before any VIOLATION',
+      text='C01 is decided as C02 (decode = specification decoder, all byte strings, all entry points) and C03 (encode = specification encoder, representation independent) and contract S (C09) for both builds, plus the Decaf bijection theorem which is trusted and stated; the check runs the union of those obligations.',
+      note='Trusted: the Decaf bijection theorem for (a,d,q); everything else as in C02/C03/C09.', ref='§3 C01'),
+ 'C10': dict(level='proof', technique='symbolic execution of the MIR (POLY domain) for every operator/method form; certificates for division/inversion; branch-merged free-cyclic-group interpretation for power',
+      text='For Fq, Fr, Fp on both builds every operator impl (25 per field), the Sum/Product impls over 0..=3 elements, the Field/Zero/One methods and Fq::power (all exponent limb values, 0..=3 limbs) are executed on the MIR and compared by z3 with the field operation on values; exactly the zero divisor panics, inverse of zero is None.',
+      note='Trusted: kernels/wrappers denote field operations on values (contracts K, W), ark-ff behind the u64 wrappers, MIR semantics as modelled.', ref='§3 C10'),
+ 'C11': dict(level='proof', technique='symbolic execution of the MIR: byte-string reduction as chunk structure + polynomial identity (lengths 0..=200), integer/limb/byte/flag conversions as path conditions decided by z3 QF_BV',
+      text='from_le/be_bytes_mod_order of all three fields and both builds are executed for every length 0..=200 with symbolic bytes (chunk windows, padding, Horner weights); from_bigint accepts exactly the integers below p with the right value; flagged (de)serialisation round-trips value and flags for the three standard flag types and rejects non-canonical values and malformed flags; sizes.',
+      note='Trusted: W contracts for the raw parser and limb packing, arkworks flag types, MIR semantics. Bound: lengths 0..=200.', ref='§3 C11'),
+ 'C12': dict(level='proof', technique='derived: both builds are compared with the same specification by the checks of C02, C03, C04, C05, C07, C08, C09, C10, C11, C17 (MIR symbolic execution, z3)',
+      text='Backend equivalence is decided transitively: every shared operation of the arkworks build and of the minimal build is shown equal to the same specification on all inputs (within the bounds of the respective checks), and duplicated literals are shown equal through their defining equations.',
+      note='Trusted: as in the constituent checks. The replay compares both native builds with the common python reference.', ref='§3 C12'),
+ 'C09': dict(level='proof', technique='symbolic execution of the MIR in 2-adic exponent coordinates (47-bit bit-vectors + exact odd-part exponent vectors), staged invariants discharged by z3 QF_BV; path enumeration for zero operands',
+      text='Both square-root-of-ratio routines are executed on the MIR for all nonzero (num, den): the field is represented as <g> x H with the 2-adic exponent a symbolic 47-bit vector; the lookup tables are the real ones (their initialiser is interpreted). Every HashMap lookup is shown to hit (no panic), every bounds/overflow assertion is proved, and flag and y^2*den = num resp. zeta*num follow from stage invariants that are each proved by z3. Zero operands: the early returns are enumerated. legendre follows Euler\'s criterion on every path.',
+      note='Trusted: cyclicity of F_q^*, MIR semantics as modelled, ark-ff pow/sqrt. No bound on values.', ref='§3 C09'),
  'C06': dict(level='proof', technique='path enumeration of every constructor on the MIR with validity provenance tracking (raw arkworks point constructors are the only invalid sources); decode on-curve certificate; ground SMT for the constants and group order',
       text='Every public constructor of the arkworks build (zero, generator, default, from_random_bytes for all slice lengths 0..=80, the two samplers, into_affine, normalize_batch, batch_convert_to_mul_base, cofactor methods, all deserialisers) is executed on the MIR; on every path each returned curve point is shown to stem from a validated source (decode, checked constant, operations on valid points), never from a raw arkworks point constructor; generator = decode(8), identity, [r]B = identity and the on-curve property of decoded points are discharged by z3.',
       note='Trusted: group operations/conversions preserve validity, Elligator image, Decaf theorem; arkworks as delegated. Bounds: lengths 0..=80, <= 2 sampler rejections, batches <= 3.', ref='§3 C06'),
